@@ -16,7 +16,7 @@ PLAN = {
 BUDGET = {"quick": 50, "thorough": 900}
 RULE = (
     "seeded acyclic dependency graphs (2-8 providers, depth <= 4, fan-out <= 3, shared sub-dependencies, sync providers run "
-    "through the executor seam and async providers with virtual delays, MessageDependency parameters declared before or after the Depends parameters), an actor using 1-3 of them "
+    "through the executor seam and async providers with virtual delays, MessageDependency parameters declared before or after the Depends parameters, providers whose value is an exception object), an actor using 1-3 of them "
     "next to payload arguments (Basic and Pydantic converter), a sequence of 1-4 deliveries with Depends.override() calls in "
     "between (the new provider has a different sub-dependency set) and a set of providers that raise. A reference evaluator "
     "computes each provider's value from its sub-results. Oracle: the actor's keyword arguments == payload arguments + "
@@ -37,7 +37,8 @@ def gen(rng, broker, tier):
         # limit depth: node i may only depend on nodes within the next 4 levels
         subs = sorted(rng.sample(later, k)) if later else []
         nodes.append({"subs": subs, "kind": rng.choice(["async", "async", "sync"]), "delay_us": rng.choice([0, 0, 500, 20_000]),
-                      "msg": rng.random() < 0.3, "msg_first": rng.random() < 0.5, "default": rng.random() < 0.2})
+                      "msg": rng.random() < 0.3, "msg_first": rng.random() < 0.5, "default": rng.random() < 0.2,
+                      "exc_value": rng.random() < 0.08})  # a provider whose *value* is an exception object
     roots = sorted(rng.sample(range(n), rng.randint(1, min(3, n))))
     deliveries = []
     for d in range(rng.randint(1, 4)):
@@ -95,12 +96,16 @@ async def _main(sim, sc, out):
                     await asyncio.sleep(nodes[i]["delay_us"] / 1e6)
                 if cur["fail"] == i:
                     raise RuntimeError(f"provider {i} fails")
+                if nodes[i].get("exc_value") and tag == "base":
+                    return RuntimeError(f"n{i}-value")
                 return _value(i, tag, kwargs)
         else:
             def body(kwargs):
                 calls.setdefault((cur["delivery"], i), []).append(dict(kwargs))
                 if cur["fail"] == i:
                     raise RuntimeError(f"provider {i} fails")
+                if nodes[i].get("exc_value") and tag == "base":
+                    return RuntimeError(f"n{i}-value")
                 return _value(i, tag, kwargs)
         ns = {"_body": body}
         call = "{" + ", ".join(f"{p!r}: {p}" for p in pnames) + "}"
@@ -116,8 +121,13 @@ async def _main(sim, sc, out):
         fn.__annotations__ = ann
         return fn
 
+    def _plain(v):
+        if isinstance(v, BaseException):
+            return ["EXCVALUE", str(v)]
+        return v if not hasattr(v, "key") else "MSG:" + v.key.id_
+
     def _value(i, tag, kwargs):
-        return [f"n{i}", tag, sorted((k, (v if not hasattr(v, "key") else "MSG:" + v.key.id_)) for k, v in kwargs.items())]
+        return [f"n{i}", tag, sorted((k, _plain(v)) for k, v in kwargs.items())]
 
     for i in range(n - 1, -1, -1):
         deps[i] = r.Depends(make_provider(i, nodes[i]["subs"], nodes[i]["kind"], "base", nodes[i]["msg"], nodes[i]["default"]))
@@ -188,6 +198,8 @@ async def _main(sim, sc, out):
                 kw["msg"] = "MSG:" + mid
             if nodes[i]["default"] and tag == "base":
                 kw["opt"] = 7
+            if nodes[i].get("exc_value") and tag == "base":
+                return ["EXCVALUE", f"n{i}-value"]
             return [f"n{i}", tag, sorted(kw.items())]
 
         def reaches(i, target, seen=None):
@@ -220,7 +232,7 @@ async def _main(sim, sc, out):
         if di not in got:
             V.append(violation("actor-not-run", "C18/mem/actor-not-invoked", delivery=di, place=place_summary(world.inspect(), mid)))
             continue
-        g = {k: (v if not hasattr(v, "key") else "MSG:" + v.key.id_) for k, v in got[di].items()}
+        g = {k: _plain(v) for k, v in got[di].items()}
         if g != want:
             diff = sorted(k for k in set(g) | set(want) if g.get(k) != want.get(k))
             V.append(violation("wrong-arguments", f"C18/mem/actor-arguments-differ/{'dependency' if diff[0].startswith('r') else 'payload'}"
